@@ -294,6 +294,7 @@ class PrintRecorder:
 RLIMIT_DEFAULT = 5_000_000        # per library-level check
 RLIMIT_SUB = 1_000_000            # per steering sub-check
 RLIMIT_RUN_BUDGET = 30_000_000    # per run, all checks together (deterministic hang guard)
+REAL_TIMEOUT_GUARD_MS = 8000
 STEP_CAP_DEFAULT = 400
 
 
@@ -338,13 +339,6 @@ class SimSolver:
         self.n_checks = 0
         self.owner = env.current_client
         env.solvers.append(self)
-        if kind == "optimize":
-            # z3.Optimize does not always honour rlimit (non-linear objectives): last-resort
-            # real timeout; when it fires the run is flagged (excluded from digest re-checks)
-            try:
-                self._real.set("timeout", 20000)
-            except _z3.Z3Exception:  # pragma: no cover
-                pass
         env.trace("solver_new", kind=kind, logic=logic)
 
     # -- plain forwards -----------------------------------------------------------------
@@ -427,9 +421,21 @@ class SimSolver:
             return _z3.unknown
         try:
             real.set("rlimit", int(min(limit, left)))
+            # last-resort wall-clock guard: rlimit is not honoured uniformly by z3's
+            # non-linear arithmetic and by Optimize.  When it fires the run is flagged
+            # (excluded from digest comparisons, counted inconclusive) and given up.
+            real.set("timeout", REAL_TIMEOUT_GUARD_MS)
         except _z3.Z3Exception:  # pragma: no cover
             pass
         r = real.check(*assumptions)
+        if r == _z3.unknown:
+            try:
+                why = str(real.reason_unknown())
+            except _z3.Z3Exception:  # pragma: no cover
+                why = ""
+            if "timeout" in why:
+                env.real_timeout_guard += 1
+                env.rl_used = env.rl_budget  # give the run up: every later check answers unknown
         try:
             st = real.statistics()
             now = None
@@ -494,11 +500,7 @@ class SimSolver:
             self._last_verdict = "real-unknown"
             env.fault_fired("engine-gave-up")
             env.inconclusive += 1
-            try:
-                if self._kind == "optimize" and "timeout" in str(self._real.reason_unknown()):
-                    env.real_timeout_guard += 1
-            except _z3.Z3Exception:  # pragma: no cover
-                pass
+
         else:
             self._last_verdict = str(r)
         ev["verdict"] = str(r)
